@@ -8,6 +8,7 @@ E2  real managed encodes (harness/c14_e2e.c), every contiguous packet run judged
 """
 import sys, os, json, time, re, math
 import vlib
+import c14_seq
 
 PID = 'C14'
 RATE, BS0 = 32, 64           # rate == bs0/2: one short block lasts one "second", per-short-block target == rate parameter (bits)
@@ -239,13 +240,14 @@ def run(tier):
     vlib.build('plain')
     exe1 = vlib.harness('plain', 'c14_bitrate')
     exe2 = vlib.harness('plain', 'c14_e2e')
+    exe3 = vlib.harness('plain', 'c14_seq')
     t0 = time.time()
     # internal wall-clock deadline (coverage only, never a verdict); C14_DEADLINE_S overrides it, e.g. to measure a complete run on a loaded machine
     deadline = int(t0 + float(os.environ.get('C14_DEADLINE_S', 150 if tier == 'quick' else 21 * 60)))
     exhaustive = True
 
     # ------------------------------------------------------------------ E2 first (short), then E1
-    parts = os.environ.get('C14_PARTS', 'e1,e2').split(',')    # debugging aid only; a partial run is reported as non-exhaustive
+    parts = os.environ.get('C14_PARTS', 'e1,e2,e3').split(',')    # debugging aid only; a partial run is reported as non-exhaustive
     e2a = (e2_cases(tier) + e2_lowmax(tier) + e2_plain(tier)) if 'e2' in parts else []
     e2b = e2_requests(tier) if 'e2' in parts else []
     e2 = e2a + e2b
@@ -307,6 +309,10 @@ def run(tier):
             chk.violation(f"e2:executor_{r.split()[0].lower()}:{meta['mode']}:{meta['rate']}", f"encode executor failed on [{line}]: {r[:300]}", {'part': 'e2', 'case': line})
     t_e2 = time.time() - t0
 
+    # ------------------------------------------------------------------ E3: set-up request sequences (pylib/c14_seq.py, harness/c14_seq.c); before E1, whose heavy tail a deadline may cut
+    e3add = c14_seq.run_family(chk, tier, exe3, broken) if 'e3' in parts else (0, 0, 0, 0)
+    t_e3 = time.time() - t0 - t_e2
+
     # ------------------------------------------------------------------ E1
     cfgs = e1_configs(tier) if 'e1' in parts else []
     cfgs.sort(key=e1_cost)    # light configurations first: a deadline can only cut the heavy tail
@@ -366,9 +372,9 @@ def run(tier):
         chk.violation(key, desc, rp)
 
     chk.cov.update({
-        'states': tot['states'], 'transitions': tot['trans'], 'traces_validated_against_impl': tot['validated'],
-        'distinct_nontrivial': tot['nontriv'],
-        'exhaustive': exhaustive and parts == ['e1', 'e2'], 'parts': parts,
+        'states': tot['states'] + e3add[0], 'transitions': tot['trans'] + e3add[1], 'traces_validated_against_impl': tot['validated'] + e3add[2],
+        'distinct_nontrivial': tot['nontriv'] + e3add[3],
+        'exhaustive': exhaustive and parts == ['e1', 'e2', 'e3'], 'parts': parts, 'e3_wall_s': round(t_e3, 1),
         'e1_configurations': len(cfgs), 'e1_configurations_without_avg': n_noavg, 'e1_fixpoints_without_avg': fix_noavg, 'e1_configurations_with_avg_depth_bounded': n_avg,
         'e1_fixpoints_total': fix_total, 'e1_cut': cut,
         'e1_truncating_transitions': tot['trunc'], 'e1_padding_transitions': tot['pad'], 'e1_transitions_to_reservoir_0': tot['hit0'], 'e1_transitions_to_reservoir_full': tot['hitfull'],
@@ -381,7 +387,10 @@ def run(tier):
                 'configurations without average tracking run to a fix-point (fix=1), with average tracking to the stated depth / transition cap (fix=0, why=depthcap|cap); '
                 'distinct_nontrivial = number of distinct (configuration, state) pairs whose reservoir differs from its initial fill (the limiter has acted). '
                 'E2: real managed encodes (4 limit modes x loose/tight limits x 3 reservoirs x 3 biases x 2 rates x 2 channel counts x signals; hard maxima of 1-2 kbps (sub-byte short-block budgets) on click trains; '
-                'plain vorbis_encode_init / setup_managed+setup_init set-ups without ctl; out-of-range requests through RATEMANAGE2_SET), every contiguous packet run judged (e2.runs).',
+                'plain vorbis_encode_init / setup_managed+setup_init set-ups without ctl; out-of-range requests through RATEMANAGE2_SET), every contiguous packet run judged (e2.runs). '
+                'E3: per set-up (base call x rate x channels) a BFS over the real set-up object under an alphabet of vorbis_encode_ctl requests (all request sequences up to e3.depth; states deduplicated by value, '
+                'transition = one real request + read-backs checked against a reference model of the requested rate-management configuration); every reachable managed state with a hard limit is re-created on a fresh '
+                'object and encoded, every contiguous packet run judged against the REQUESTED reservoir; its states / transitions / replayed histories are included in the totals, distinct_nontrivial counts its non-initial states.',
     })
     chk.assumptions += [
         'slack s = 14 bits on E+/E-: packets are whole bytes; truncation floors the allowance to a byte, padding ceils the demand to a byte (<=7 bits each), and a run can start after one and end after the other. '
@@ -418,7 +427,7 @@ def run(tier):
 def replay(path):
     r = json.load(open(path))['replay']
     vlib.build('plain')
-    exe = vlib.harness('plain', 'c14_bitrate' if r['part'] == 'e1' else 'c14_e2e')
+    exe = vlib.harness('plain', {'e1': 'c14_bitrate', 'e3': 'c14_seq'}.get(r['part'], 'c14_e2e'))
     out = vlib.run_cases(exe, [r['case']], jobs=1, tag='c14rp')
     print(out[0])
     return 0 if (out[0] or '').startswith('ok') else 1
